@@ -44,8 +44,39 @@ type modLoc struct {
 	lo   *Term // mem: index window [lo, hi) in backing-array coordinates
 	hi   *Term
 	guard *Term                // location is modified only if guard holds (nil: always)
+	exceptFids  map[int]bool   // allexcept: field ids that stay unchanged
+	exceptMaps  map[string]bool // allexcept: map types (typeKey) that stay unchanged
+	exceptGhost map[string]bool // allexcept: ghost variables that stay unchanged
 	fids []int                 // each: affected field ids
 	cond func(obj *Term) *Term // each: membership condition (pre-state)
+}
+
+// exceptTarget says whether the cell address a is one of the protected (unchanged) cells of an allexcept location.
+func exceptTarget(m modLoc, a *Term) *Term {
+	if a.Op == "emb" && a.Args[1].Op == "int" {
+		fid := a.Args[1].Int.Int64()
+		if fid >= 100000 && a.Args[0].Op == "emb" {
+			return exceptTarget(m, a.Args[0])
+		}
+		if m.exceptFids[int(fid)] {
+			return True
+		}
+		// a field of an embedded protected struct
+		if a.Args[0].Op == "emb" {
+			return exceptTarget(m, a.Args[0])
+		}
+		return False
+	}
+	if a.Op == "obj" || a.Op == "nil" || a.Op == "elem" {
+		return False
+	}
+	fld := mk("efld", IntSort, a)
+	par := mk("eparent", RefSort, a)
+	var fs []*Term
+	for f := range m.exceptFids {
+		fs = append(fs, Eq(fld, IntLit(int64(f))), And(Ge(fld, IntLit(100000)), Eq(mk("efld", IntSort, par), IntLit(int64(f)))))
+	}
+	return And(mk("isemb", BoolSort, a), Or(fs...))
 }
 
 // eachTarget says whether the cell address a belongs to the "each" location m (a may be a bound variable).
@@ -206,6 +237,7 @@ type FV struct {
 	extra    []string
 	used     map[string]bool
 	paramFirst []int
+	touched  map[string]bool // heap arrays written anywhere in the function (from the first pass)
 	eqHeap   *Heap
 	lets     map[string]TV
 	divmemo  map[[2]int][2]*Term
@@ -923,6 +955,19 @@ func (fv *FV) frameAlts(st *State, addr *Term, isElem bool, lo, hi *Term) *Term 
 			if !isElem {
 				alts = append(alts, eachTarget(m, addr))
 			}
+		case "map":
+			if !isElem && addr.Op == "emb" && addr.Args[1].Op == "int" && addr.Args[1].Int.Int64() == -2 {
+				alts = append(alts, Eq(addr.Args[0], m.addr))
+			}
+		case "allexcept":
+			ok := True
+			if !isElem {
+				ok = Not(exceptTarget(m, addr))
+			}
+			if m.guard != nil {
+				ok = And(m.guard, ok)
+			}
+			alts = append(alts, ok)
 		case "mem":
 			if isElem {
 				c := And(Eq(addr, m.addr), fv.idxLe(m.lo, lo), fv.idxLe(hi, m.hi))
